@@ -15,7 +15,7 @@ from .tracecheck import validate
 
 
 def main(d: str, n: str, seed: str, tier: str) -> None:
-    d = Path(d)
+    d = Path(d).resolve()
     t0 = time.time()
     specs = gen_specs(int(seed), int(n))
     try:
